@@ -1625,6 +1625,37 @@ def applied_call(e, ctx, call):
     node = f.node
     va = node.args.vararg.arg if node.args.vararg else None
     if va is None:
+        # `return func()` for a parameter func that this call site binds to
+        # partial(F, a, b) / lambda: F(a, b) / a bound method
+        rets = [x for x in walk_own(node) if isinstance(x, _ast.Return)]
+        own = f.params[1:] if f.params[:1] in (['self'], ['cls']) and \
+            f.cls is not None and f.kind != 'staticmethod' else \
+            list(f.params)
+        if len(rets) != 1 or not (
+                isinstance(rets[0].value, _ast.Call) and
+                isinstance(rets[0].value.func, _ast.Name) and
+                rets[0].value.func.id in own and
+                not rets[0].value.args and not rets[0].value.keywords):
+            return None
+        name = rets[0].value.func.id
+        if any(isinstance(y, _ast.Name) and y.id == name and
+               isinstance(y.ctx, _ast.Store) for y in walk_own(node)) or \
+                any(isinstance(a, _ast.Starred) for a in call.args):
+            return None
+        i = own.index(name)
+        arg = call.args[i] if i < len(call.args) else None
+        for kw in call.keywords:
+            if kw.arg == name:
+                arg = kw.value
+        if isinstance(arg, _ast.Call) and \
+                _ast.unparse(arg.func).endswith('partial') and arg.args and \
+                not arg.keywords:
+            return arg.args[0], list(arg.args[1:])
+        if isinstance(arg, _ast.Lambda) and not arg.args.args and \
+                isinstance(arg.body, _ast.Call) and not arg.body.keywords:
+            return arg.body.func, list(arg.body.args)
+        if isinstance(arg, (_ast.Attribute, _ast.Name)):
+            return arg, []
         return None
     rets = [x for x in walk_own(node) if isinstance(x, _ast.Return)]
     calls = [x for x in walk_own(node) if isinstance(x, _ast.Call) and
